@@ -1049,6 +1049,11 @@ func (p *Core) closeResources(newConf *conf.Conf) {
 		newConf.ReadTimeout != currentConf.ReadTimeout ||
 		newConf.WriteTimeout != currentConf.WriteTimeout ||
 		newConf.WriteQueueSize != currentConf.WriteQueueSize ||
+		newConf.SRTPAddress != currentConf.SRTPAddress ||
+		newConf.SRTCPAddress != currentConf.SRTCPAddress ||
+		newConf.MulticastIPRange != currentConf.MulticastIPRange ||
+		newConf.MulticastSRTPPort != currentConf.MulticastSRTPPort ||
+		newConf.MulticastSRTCPPort != currentConf.MulticastSRTCPPort ||
 		newConf.RTSPServerCert != currentConf.RTSPServerCert ||
 		newConf.RTSPServerKey != currentConf.RTSPServerKey ||
 		newConf.RTSPAddress != currentConf.RTSPAddress ||
